@@ -1351,6 +1351,32 @@ struct VarDriver : DriverBase<VarDriver<Ts...>> {
                     return;
                 }
             }
+            // a class publicly derived from a variant is visited through its variant base (P2162), like std::visit does
+            if constexpr (copyable && uniqueTypes) {
+                struct Derived : V {
+                    explicit Derived(V const& v)
+                        : V(v)
+                    {
+                    }
+                };
+                std::vector<int> sd;
+                sd.reserve(8);
+                int rd = 0;
+                void* dmem = arena_prepare(kTemp, sizeof(Derived), plan.cfg, 33, alignof(Derived));
+                bool okd   = observe("visit-derived-from-variant", [&] {
+                    Derived* d = new (dmem) Derived(static_cast<V const&>(a));
+                    rd         = etl::visit(Visitor{&sd}, static_cast<Derived const&>(*d));
+                    d->~Derived();
+                });
+                arena_retire(kTemp);
+                if (!okd) {
+                    return;
+                }
+                if (sd.size() != 2 || sd[0] != model[x].value || sd[1] != tagOfIndex || rd != model[x].value) {
+                    ctx.violation("C07", "diff:variant:visit-derived", "visiting a class derived from the variant did not reach the active alternative of its variant base");
+                    return;
+                }
+            }
             // the visitor itself is forwarded: an rvalue visitor is called through its &&-qualified call operator
             {
                 using RefQualified = RefQualifiedVisitor;
